@@ -5,7 +5,7 @@ calc-fisher-matrix-total-size, qmpt-mse-linear-analytical-qoperation (owner C19)
 calc-fisher-matrix-mixed-outcome-counts (owner C08).  On a tree without one of them the defect is reported again.
 
 Translator tie (regen_model): gen/c19_py2coq.py regenerates the loop / index / guard / dispatch skeletons of the anchored functions from
-the current source on every run; coq/gen/C19_Equiv.v proves them equal to the hand-written model (26 theorems, counted as obligations).
+the current source on every run; coq/gen/C19_Equiv.v proves them equal to the hand-written model (27 theorems, counted as obligations).
 
 Sub-checks
   helpers      matrix_util / data_analysis helper functions vs the extracted model (+ error branches)
@@ -89,7 +89,7 @@ def rand_dist(rng, m, den=60, zeros=False):
 
 def lay(a, layout):
     """the same numbers in another memory layout: "c" C-contiguous, "f" Fortran order, "view" a strided view into a larger buffer,
-    "neg" a view with negative strides, "list" (1-d only) a plain Python list where the API documents a list / accepts sequences"""
+    "neg" a view with negative strides, "ro" a read-only array, "list" (1-d only) a plain Python list where the API documents a list / accepts sequences"""
     a = np.asarray(a)
     if layout in (None, "c"):
         return np.ascontiguousarray(a)
@@ -103,6 +103,9 @@ def lay(a, layout):
     if layout == "neg":
         rev = tuple(slice(None, None, -1) for _ in a.shape)
         return a[rev].copy()[rev]
+    if layout == "ro":
+        b = np.array(a, copy=True); b.setflags(write=False)
+        return b
     raise ValueError(layout)
 
 
@@ -497,12 +500,12 @@ def gen_helpers(ctx):
         K = rng.randint(1, 5); ln = rng.randint(1, 4)
         cases.append({"kind": "general_norm", "xs": [[rq(rng) for _ in range(ln)] for _ in range(K)], "y": [rq(rng) for _ in range(ln)]})
     # memory layout of the array arguments (C / Fortran order, strided view, negative strides): cycled deterministically
-    lays = ["c", "f", "view", "neg"]
+    lays = ["c", "f", "view", "neg", "ro"]
     cnt = {}
     for c_ in cases:
         if c_["kind"] in ("cov_mat", "direct_sum", "conjugate", "fisher", "fisher_total", "se_c"):
             i_ = cnt.get(c_["kind"], 0); cnt[c_["kind"]] = i_ + 1
-            c_["layout"] = lays[i_ % 4]
+            c_["layout"] = lays[i_ % 5]
     return cases
 
 
@@ -587,15 +590,33 @@ def sub_expect(ctx):
 # ====================================================================== tomography classes
 def setup_of(case):
     kind = case["type"]
-    t = S.build_tomo(kind, case["sys"], case["eq"], case.get("tst_states"), case.get("tst_povms"), case.get("mo", 0))
+    t = S.build_tomo(kind, case["sys"], case["eq"], case.get("tst_states"), case.get("tst_povms"), case.get("mo", 0), sched=case.get("sched"))
     c = S.c_sys_of(case["sys"])
     d2 = c.dim ** 2
     return t, d2
 
 
+def unpack(setup):
+    """(type, system, outcomes of the estimated object, tester states, tester POVMs[, user-defined schedules])"""
+    return tuple(setup) + (None,) if len(setup) == 5 else tuple(setup)
+
+
 def sizes_of(t):
-    """numbers of outcomes of the schedules (they may differ)"""
-    return [int(t.num_outcomes(j)) for j in range(t.num_schedules)]
+    """numbers of outcomes of the schedules (they may differ), computed INDEPENDENTLY of tomography.num_outcomes(): from the schedule
+    list of the experiment and the tester POVMs the harness itself put there (x the outcome count of the estimated POVM / MProcess)"""
+    exp = t._experiment
+    est = int(getattr(t, "_num_outcomes", 1) or 1)
+    out = []
+    for sch in exp.schedules:
+        n = 1
+        for item_kind, idx in sch:
+            if item_kind == "povm":
+                pv = exp.povms[idx]
+                n *= est if pv is None else len(pv.vecs)
+            elif item_kind == "mprocess":
+                n *= est
+        out.append(int(n))
+    return out
 
 
 def header(case, t, d2, A, b, v, extra=()):
@@ -629,6 +650,14 @@ def chk_tomo(ctx, case):
     for x in ms:
         offs.append(offs[-1] + x)
     mixed = len(set(ms)) > 1
+    custom = case.get("sched") is not None
+    r_no = impl_call(lambda: [int(t.num_outcomes(j)) for j in range(J)])
+    if r_no[0] == "err":
+        bad(cls + ".num_outcomes", "schedule-lookup", "num_outcomes(j) raises %s for the schedules %s (POVMs named there have %s outcomes)" % (r_no[1], [list(x) for x in t._experiment.schedules], ms))
+        return
+    no = r_no[1]
+    if no != ms:
+        bad(cls + ".num_outcomes", "schedule-lookup", "num_outcomes(j) = %s, but the POVMs named in the schedules %s have %s outcomes" % (no, [list(x) for x in t._experiment.schedules], ms))
     if offs[-1] != nr:
         bad(cls + ".num_outcomes", "sizes", "sum of num_outcomes(j) = %d, matA has %d rows" % (offs[-1], nr))
         return
@@ -647,13 +676,22 @@ def chk_tomo(ctx, case):
         ctx.count("tomo", key=("pd", repr(case)), label=label + "-prob-dists-shape", nontrivial=True)
         what = "schedules with %s outcomes: calc_prob_dists %s; expected one distribution per schedule with these lengths" % (
             ms, ("raises " + pi[1]) if pi[0] == "err" else "returns rows of lengths %s" % ([len(r) for r in rows_i] if rows_i is not None else "?"))
-        if mixed:
+        if custom:
+            bad("StandardQTomography.calc_prob_dists", "schedule-lookup", "user-defined " + what)
+        elif mixed:
             bad("StandardQTomography.calc_prob_dists", "mixed-outcome-counts", what)
         else:
             bad(cls + ".calc_prob_dists", "shape", what)
         return
     pd_i = np.concatenate(rows_i)
-    ctx.count("tomo", key=("case", repr(case)), label=label + ("-mixed" if mixed else "") + ("-band" if band else ""), nontrivial=not band)
+    ctx.count("tomo", key=("case", repr(case)), label=label + ("-mixed" if mixed else "") + ("-userschedules" if custom else "") + ("-band" if band else ""), nontrivial=not band)
+    if kind == "qst":
+        # independent reference (Born rule with the POVM NAMED in schedule j): row j of calc_prob_dists
+        exp_ = t._experiment
+        ref_rows = [np.array([float(np.vdot(e_, truth.vec).real) for e_ in exp_.povms[sch[1][1]].vecs]) for sch in exp_.schedules]
+        if not band and not close_arr(pd_i, np.concatenate(ref_rows), 1e-10):
+            bad(cls + ".calc_prob_dists", "not-born-rule-of-scheduled-povm", "row j is not Tr[E_x rho] of the POVM named in schedule j (%s)" % [list(x) for x in exp_.schedules])
+            return
     if band:
         return
     if not close_arr(pd_i, pd_m, 1e-11):
@@ -788,6 +826,12 @@ SETUPS_QUICK = [
     ("qst", "2qubit", 0, None, ["random", 18, 6, 4]),   # two qubits (d^2 = 16, 15 variables), six random 4-outcome testers
     ("qmpt", "qubit", 2, ["typical"], ["typical"]),
     ("qmpt", "qubit", 3, ["typical"], ["typical"]),      # 3 outcomes: two full HS blocks contribute to the implied first row
+    # USER-DEFINED schedules (permuted, repeated testers) over testers with different outcome counts: schedule j is NOT tester j
+    ("qst", "qubit", 0, None, ["mixed", 15, [3, 2, 4]], [2, 0, 1, 0]),
+    ("qst", "qubit", 0, None, ["mixed", 16, [2, 4, 3]], [1, 2, 0]),          # pure permutation: as many schedules as testers
+    ("povmt", "qubit", 3, ["typical"], None, [3, 1, 0, 2, 1]),
+    ("qpt", "qubit", 0, ["typical"], ["mixed", 35, [2, 3]], [[0, 1], [1, 0], [2, 1], [3, 0], [0, 0], [1, 1], [2, 0], [3, 1]]),
+    ("qmpt", "qubit", 2, ["typical"], ["mixed", 45, [2, 3]], [[3, 1], [0, 0], [1, 1], [2, 0], [0, 1], [1, 0], [2, 1], [3, 0]]),
     # tester POVMs with DIFFERENT numbers of outcomes (schedules of unequal length)
     ("qst", "qubit", 0, None, ["mixed", 15, [3, 2]]),
     ("qst", "qubit", 0, None, ["mixed", 16, [2, 4, 3]]),
@@ -822,9 +866,10 @@ def rand_ns(rng, J):
 def gen_tomo(ctx, per_setup, setups):
     rng = ctx.rng
     cases = []
-    for (kind, sysn, mo, ts, tp) in setups:
+    for setup in setups:
+        kind, sysn, mo, ts, tp, sched = unpack(setup)
         for eq in (True, False):
-            t = S.build_tomo(kind, sysn, eq, ts, tp, mo)
+            t = S.build_tomo(kind, sysn, eq, ts, tp, mo, sched=sched)
             J = t.num_schedules
             k = max(1, per_setup // HEAVY.get(kind, 1))
             truths = [["random", rng.randrange(1 << 30)] for _ in range(k)]
@@ -841,7 +886,7 @@ def gen_tomo(ctx, per_setup, setups):
                 truths.append(["named", nm])
             for tr in truths:
                 ns = rand_ns(rng, J)
-                cases.append({"type": kind, "sys": sysn, "eq": eq, "mo": mo, "tst_states": ts, "tst_povms": tp,
+                cases.append({"type": kind, "sys": sysn, "eq": eq, "mo": mo, "tst_states": ts, "tst_povms": tp, "sched": sched,
                               "truth": tr, "ns": ns, "N": rng.choice([ns[0], max(ns), 10])})
     return cases
 
@@ -924,13 +969,14 @@ def sub_object_err(ctx):
     rng = ctx.rng
     setups = SETUPS_QUICK if ctx.quick else SETUPS_QUICK + SETUPS_MORE
     cases = []
-    for (kind, sysn, mo, ts, tp) in setups:
+    for setup in setups:
+        kind, sysn, mo, ts, tp, sched = unpack(setup)
         for eq in (True, False):
             if ctx.quick and not eq and kind in ("qst", "qpt"):
                 continue
-            t = S.build_tomo(kind, sysn, eq, ts, tp, mo)
+            t = S.build_tomo(kind, sysn, eq, ts, tp, mo, sched=sched)
             for _ in range(ctx.n(1, 3)):
-                cases.append({"type": kind, "sys": sysn, "eq": eq, "mo": mo, "tst_states": ts, "tst_povms": tp,
+                cases.append({"type": kind, "sys": sysn, "eq": eq, "mo": mo, "tst_states": ts, "tst_povms": tp, "sched": sched,
                               "truth": ["random", rng.randrange(1 << 30)], "ns": rand_ns(rng, t.num_schedules), "probe_seed": rng.randrange(1 << 30)})
     ctx.sample("object_err", cases[0])
     ctx.run_cases("object_err", chk_object_err, cases)
@@ -946,38 +992,61 @@ def chk_mixed(ctx, case):
     rnd = _r.Random(case["seed"])
     povms = [S.make_povm(c, S.rand_povm_ops(rnd, c.dim, mo), True) for mo in case["outcomes"]]
     truth = S.make_state(c, S.rand_density(rnd, c.dim), case["eq"])
-    t = StandardQst(povms, on_para_eq_constraint=case["eq"])
+    order = case.get("order") or list(range(len(povms)))
+    t = StandardQst(povms, on_para_eq_constraint=case["eq"], schedules=S.make_schedules("qst", case.get("order")))
     ns = case["ns"]
     A = t.calc_matA(); b = t.calc_vecB()
     v = np.asarray(truth.to_var() if case["eq"] else truth.to_stacked_vector(), dtype=float)
     raw = A @ v + b
     blocks = []
     off = 0
-    for mo, n in zip(case["outcomes"], ns):
+    for mo, n in zip([case["outcomes"][j] for j in order], ns):
         pj = raw[off:off + mo]; off += mo
         blocks.append((np.diag(pj) - np.outer(pj, pj)) / n)
     m = ctx.get_model()
     ref = np.array(fl(m.call("c19.direct_sum", [len(blocks)] + [bk.shape[0] for bk in blocks], [x for bk in blocks for x in rflat(bk)]))).reshape(len(raw), len(raw))
-    ctx.count("mixed", key=repr(case), label="outcomes-" + "-".join(str(x) for x in case["outcomes"]), nontrivial=True)
+    ctx.count("mixed", key=repr(case), label="outcomes-" + "-".join(str(x) for x in case["outcomes"]) + ("-order-" + "".join(str(x) for x in order) if case.get("order") else ""), nontrivial=True)
+    sig = "schedule-lookup" if case.get("order") else "mixed-outcome-counts"
     r = impl_call(t.calc_covariance_mat_total, truth, ns)
     if r[0] == "err":
-        ctx.violation("mixed", "StandardQTomography.calc_prob_dists", "mixed-outcome-counts", "tester POVMs with %s outcomes: calc_covariance_mat_total raises %s (reshape((num_schedules,-1)) assumes equal outcome counts)" % (case["outcomes"], r[1]), case)
+        ctx.violation("mixed", "StandardQTomography.calc_prob_dists", sig, "tester POVMs with %s outcomes, schedule order %s: calc_covariance_mat_total raises %s" % (case["outcomes"], order, r[1]), case)
         return
     got = np.asarray(r[1], dtype=float)
     if got.shape != ref.shape or not close_arr(got, ref, 1e-10):
-        ctx.violation("mixed", "StandardQTomography.calc_prob_dists", "mixed-outcome-counts", "tester POVMs with %s outcomes: total covariance is not the direct sum of the per-schedule multinomial covariances (rows regrouped by reshape((num_schedules,-1)))" % (case["outcomes"],), case)
+        ctx.violation("mixed", "StandardQTomography.calc_prob_dists", sig, "tester POVMs with %s outcomes, schedule order %s: total covariance is not the direct sum of the per-schedule multinomial covariances of the POVMs named in the schedules" % (case["outcomes"], order), case)
 
 
 def sub_mixed(ctx):
     rng = ctx.rng
     cases = []
-    for outcomes in ([3, 2], [2, 4], [2, 3, 2], [4, 2, 3]):
-        cases.append({"sys": "qubit", "eq": rng.random() < 0.5, "outcomes": outcomes, "seed": rng.randrange(1 << 30), "ns": [rng.choice([5, 10, 100]) for _ in outcomes]})
+    for i, outcomes in enumerate(([3, 2], [2, 4], [2, 3, 2], [4, 2, 3])):
+        cases.append({"sys": "qubit", "eq": i % 2 == 0, "outcomes": outcomes, "seed": rng.randrange(1 << 30), "ns": [rng.choice([5, 10, 100]) for _ in outcomes]})
+    for i, (outcomes, order) in enumerate((([3, 2, 4], [2, 0, 1]), ([2, 4, 3], [1, 2, 0, 1]), ([4, 2, 3], [2, 1, 0, 2]))):   # user-defined schedules
+        cases.append({"sys": "qubit", "eq": i % 2 == 1, "outcomes": outcomes, "order": order, "seed": rng.randrange(1 << 30), "ns": [rng.choice([5, 10, 100]) for _ in order]})
     ctx.sample("mixed", cases[0])
     ctx.run_cases("mixed", chk_mixed, cases)
 
 
 # ====================================================================== no hidden state: sequences of true objects on ONE tomography object
+def _take(r):
+    """float copy of a returned value; afterwards the RETURNED object itself is overwritten in place (a caller may do that):
+    if the implementation handed out internal state, later calls are corrupted and the history sub-check sees it"""
+    if isinstance(r, np.ndarray):
+        val = np.array(r, dtype=float, copy=True)
+        try:
+            r.fill(7.5)
+        except (ValueError, TypeError):
+            pass
+        return val
+    if isinstance(r, (list, tuple)):
+        return [_take(x) for x in r]
+    return np.array([float(r)])
+
+
+def _cat(parts):
+    return np.concatenate([np.asarray(p_, dtype=float).ravel() for p_ in parts]) if isinstance(parts, list) else np.asarray(parts, dtype=float)
+
+
 def _eval_all(t, X, ns, N, reverse, use_var):
     """every analytical entry point of the tomography object t at the true object X; the call order is varied by `reverse`"""
     from quara.settings import Settings
@@ -986,16 +1055,16 @@ def _eval_all(t, X, ns, N, reverse, use_var):
     w = [n_ / N for n_ in ns]
     arg = np.asarray(X.to_var(), dtype=np.float64) if use_var else X
     steps = [
-        ("calc_prob_dists", lambda: np.concatenate([np.asarray(r, dtype=float).ravel() for r in t.calc_prob_dists(X)])),
-        ("calc_prob_dist", lambda: np.concatenate([np.asarray(t.calc_prob_dist(X, j), dtype=float).ravel() for j in range(J)])),
-        ("calc_covariance_mat_single", lambda: np.concatenate([np.asarray(t.calc_covariance_mat_single(X, j, ns[j]), dtype=float).ravel() for j in range(J)])),
-        ("calc_covariance_mat_total", lambda: np.asarray(t.calc_covariance_mat_total(X, ns), dtype=float)),
-        ("calc_covariance_linear_mat_total", lambda: np.asarray(t.calc_covariance_linear_mat_total(X, ns), dtype=float)),
+        ("calc_prob_dists", lambda: _cat(_take(t.calc_prob_dists(X))).ravel()),
+        ("calc_prob_dist", lambda: _cat([_take(t.calc_prob_dist(X, j)) for j in range(J)])),
+        ("calc_covariance_mat_single", lambda: _cat([_take(t.calc_covariance_mat_single(X, j, ns[j])) for j in range(J)])),
+        ("calc_covariance_mat_total", lambda: _take(t.calc_covariance_mat_total(X, ns))),
+        ("calc_covariance_linear_mat_total", lambda: _take(t.calc_covariance_linear_mat_total(X, ns))),
         ("calc_mse_linear_analytical[var]", lambda: np.array([float(t.calc_mse_linear_analytical(X, ns, mode="var"))])),
         ("calc_mse_linear_analytical[qoperation]", lambda: np.array([float(t.calc_mse_linear_analytical(X, ns, mode="qoperation"))])),
         ("calc_mse_empi_dists_analytical", lambda: np.array([float(t.calc_mse_empi_dists_analytical(X, ns))])),
-        ("calc_fisher_matrix", lambda: np.concatenate([np.asarray(t.calc_fisher_matrix(j, arg), dtype=float).ravel() for j in sorted(set([0, J - 1]))])),
-        ("calc_fisher_matrix_total", lambda: np.asarray(t.calc_fisher_matrix_total(arg, w), dtype=float)),
+        ("calc_fisher_matrix", lambda: _cat([_take(t.calc_fisher_matrix(j, arg)) for j in sorted(set([0, J - 1]))])),
+        ("calc_fisher_matrix_total", lambda: _take(t.calc_fisher_matrix_total(arg, w))),
         ("calc_cramer_rao_bound", lambda: np.array([float(t.calc_cramer_rao_bound(arg, N, ns))])),
     ]
     if reverse:
@@ -1004,9 +1073,9 @@ def _eval_all(t, X, ns, N, reverse, use_var):
     # consecutive steps the same method is called with the same j and neighbouring objects back to back (a one-entry memo would hit)
     j0 = J // 2
     single = lambda tag: [
-        ("calc_fisher_matrix@j0[%s]" % tag, lambda: np.asarray(t.calc_fisher_matrix(j0, arg), dtype=float).ravel()),
-        ("calc_prob_dist@j0[%s]" % tag, lambda: np.asarray(t.calc_prob_dist(X, j0), dtype=float).ravel()),
-        ("calc_covariance_mat_single@j0[%s]" % tag, lambda: np.asarray(t.calc_covariance_mat_single(X, j0, ns[j0]), dtype=float).ravel()),
+        ("calc_fisher_matrix@j0[%s]" % tag, lambda: _take(t.calc_fisher_matrix(j0, arg)).ravel()),
+        ("calc_prob_dist@j0[%s]" % tag, lambda: _take(t.calc_prob_dist(X, j0)).ravel()),
+        ("calc_covariance_mat_single@j0[%s]" % tag, lambda: _take(t.calc_covariance_mat_single(X, j0, ns[j0])).ravel()),
     ]
     steps = single("first") + steps + single("last")
     with warnings.catch_warnings():
@@ -1027,7 +1096,7 @@ def chk_history(ctx, case):
     from quara.settings import Settings
     m = ctx.get_model()
     kind = case["type"]; eq = case["eq"]; mo = case.get("mo", 0)
-    mk = lambda fresh: S.build_tomo(kind, case["sys"], eq, case.get("tst_states"), case.get("tst_povms"), mo, fresh=fresh)
+    mk = lambda fresh: S.build_tomo(kind, case["sys"], eq, case.get("tst_states"), case.get("tst_povms"), mo, fresh=fresh, sched=case.get("sched"))
     t = mk(True)                      # the ONE object of this history
     cls = type(t).__name__
     d2 = S.c_sys_of(case["sys"]).dim ** 2
@@ -1122,6 +1191,7 @@ def chk_history(ctx, case):
 
 
 HISTORY_SETUPS = [
+    ("qst", "qubit", 0, None, ["mixed", 15, [3, 2, 4]], [2, 0, 1, 0]),      # user-defined schedules
     ("qst", "qubit", 0, None, ["typical"]),
     ("qst", "qubit", 0, None, ["mixed", 15, [3, 2]]),
     ("povmt", "qubit", 3, ["typical"], None),
@@ -1139,12 +1209,13 @@ def sub_history(ctx):
     rng = ctx.rng
     deltas = [1e-6, 1e-8] if ctx.quick else [1e-6, 1e-7, 1e-8, 1e-9]
     cases = []
-    for (kind, sysn, mo, ts, tp) in (HISTORY_SETUPS if ctx.quick else HISTORY_SETUPS + HISTORY_MORE):
+    for setup in (HISTORY_SETUPS if ctx.quick else HISTORY_SETUPS + HISTORY_MORE):
+        kind, sysn, mo, ts, tp, sched = unpack(setup)
         for eq in (True, False):
             if ctx.quick and kind == "qmpt" and not eq:
                 continue
             for _ in range(ctx.n(1, 2)):
-                t = S.build_tomo(kind, sysn, eq, ts, tp, mo)
+                t = S.build_tomo(kind, sysn, eq, ts, tp, mo, sched=sched)
                 J = t.num_schedules
                 ns1 = rand_ns(rng, J); ns2 = [n_ + rng.choice([1, 3, 50]) for n_ in ns1]
                 steps = [["A", 0, 0]]
@@ -1156,7 +1227,7 @@ def sub_history(ctx):
                     steps.append(["B:%s%g" % (sgn, dl), nsi, i % 2])      # A -> close neighbour
                     steps.append(["A2" if i % 2 == 0 else "A", nsi, 1 - i % 2])   # close neighbour -> (copy of) A
                 steps += [["C", steps[-1][1], 0], ["C", 1 - steps[-1][1], 1], ["B:%g" % deltas[-1], 1 - steps[-1][1], 0], ["A", 1 - steps[-1][1], 1]]
-                cases.append({"type": kind, "sys": sysn, "eq": eq, "mo": mo, "tst_states": ts, "tst_povms": tp,
+                cases.append({"type": kind, "sys": sysn, "eq": eq, "mo": mo, "tst_states": ts, "tst_povms": tp, "sched": sched,
                               "truth": ["random", rng.randrange(1 << 30)], "far": ["random", rng.randrange(1 << 30)],
                               "dir_seed": rng.randrange(1 << 30), "ns_lists": [ns1, ns2], "N": rng.choice([ns1[0], 10]), "steps": steps})
     ctx.sample("history", cases[0])
@@ -1213,7 +1284,8 @@ def chk_big(ctx, case):
                       "mode=qoperation on_para_eq_constraint=%s: analytical %.12g, tr(J L Sigma L^T J^T) with J the Jacobian of var -> stacked object %.12g (ratio %.6f)" % (eq, got_qop, eo, got_qop / eo if eo else float("nan")), case)
 
 
-BIG_QUICK = [("povmt", "qutrit", 3, ["typical"], None), ("qpt", "qubit", 0, ["typical"], ["typical"])]
+BIG_QUICK = [("povmt", "qutrit", 3, ["typical"], None), ("qpt", "qubit", 0, ["typical"], ["typical"]),
+             ("qst", "qutrit", 0, None, ["mixed", 17, [4, 3, 5, 3]], [3, 1, 0, 2, 1])]
 BIG_MORE = [("qmpt", "qutrit", 2, ["typical"], ["typical"]), ("qst", "2qubit", 0, None, ["random", 19, 8, 3]), ("povmt", "2qubit", 3, ["random", 24, 20], None),
             ("qmpt", "qubit", 4, ["typical"], ["typical"])]
 
@@ -1221,12 +1293,13 @@ BIG_MORE = [("qmpt", "qutrit", 2, ["typical"], ["typical"]), ("qst", "2qubit", 0
 def sub_big(ctx):
     rng = ctx.rng
     cases = []
-    for (kind, sysn, mo, ts, tp) in (BIG_QUICK if ctx.quick else BIG_QUICK + BIG_MORE):
+    for setup in (BIG_QUICK if ctx.quick else BIG_QUICK + BIG_MORE):
+        kind, sysn, mo, ts, tp, sched = unpack(setup)
         for eq in (True, False):
             if kind == "qmpt" and sysn == "qutrit" and not eq:
                 continue
-            t = S.build_tomo(kind, sysn, eq, ts, tp, mo)
-            cases.append({"type": kind, "sys": sysn, "eq": eq, "mo": mo, "tst_states": ts, "tst_povms": tp,
+            t = S.build_tomo(kind, sysn, eq, ts, tp, mo, sched=sched)
+            cases.append({"type": kind, "sys": sysn, "eq": eq, "mo": mo, "tst_states": ts, "tst_povms": tp, "sched": sched,
                           "truth": ["random", rng.randrange(1 << 30)], "ns": rand_ns(rng, t.num_schedules)})
     ctx.sample("big", cases[0])
     ctx.run_cases("big", chk_big, cases)
